@@ -23,6 +23,19 @@ Reference-model monitor with three families of cases.
            and the canonical (anti)commutation relations between sites (commutators between the distinguishable
            species of SpinfulFermions('U1xU1'), by that class's docstring).
 
+Violation keys of family (b) are mechanism classes.  Every requested order is first classified by an independent GF(2)
+analysis of the network (classify_order): 'resolvable' (a schedule of single-tensor swap gates exists for this order),
+'inefficient' (a trace after a tensordot: the documented rejection), 'unresolvable:multi-bond' / 'unresolvable:traced-leg'
+(the parity of a summed index would be needed after the contraction: no schedule exists, the only correct outcomes are a
+YastnError or - for data that happens to be insensitive - the right value).  Keys:
+  exception:ncon-swap:unresolvable-order:{multi-bond,traced-leg}   foreign exception (not YastnError) on such an order
+  value:ncon-swap:unresolvable-order:{...}                         a WRONG value returned silently on such an order
+  exception:ncon-swap:inefficient-order                            foreign exception instead of the documented YastnError
+  exception:ncon-swap:resolvable-order:<ExcType>                   the scheduler fails although a schedule exists
+  exception:ncon-swap:resolvable-order:pending-swap-at-trace       same, a swap with another tensor's leg pending at a trace
+  value:ncon-swap:pending-swap-at-trace                            wrong value, swap pending at a trace step
+  value:ncon-swap:{direct,jump,jump-odd}[+trace][:bosonic]         wrong value on any other order (by commands used)
+
 Reach is reported through counters derived from the command list that _meta_ncon returns for the very call that was
 executed (parity_sign commands, jumps on third-party tensors = step 1, jumps on the contracted tensors = step 2) and
 through sys.monitoring LINE events restricted to the anchored functions.
@@ -61,8 +74,8 @@ ASSUMPTIONS = ["vmon.groups parity arithmetic on Python ints is the truth for si
                "(docstring of ncon/swap_gate; conjugation does not change parities)",
                "vmon.jw Jordan-Wigner model: site 0 first in the fermionic order, written product = matrix product, operator of "
                "charge n carries strings diag((-1)^{t.n}) over fermionic components on earlier sites (fkron docstring)",
-               "tolerances: exact for swap_gate; 5e-13 * prod ||T_i||_F for networks (arithmetic order differs between orders); "
-               "16 eps * prod max|O| for fkron (outer products)"]
+               "tolerances: exact for swap_gate; 1e-13 * prod ||T_i||_F for networks (arithmetic order differs between orders; observed "
+               "<= 1e-15 * scale); 64 eps * prod max|O| for fkron (outer products; observed <= 2 eps); 1e-13 absolute for CAR relations"]
 
 SWAP_SYMS = ("Z2", "U1", "Z2xU1", "U1xU1", "U1xU1xZ2")
 STATES = ("plain", "lazy", "lazy", "consumed", "copy")
@@ -101,17 +114,17 @@ FK_SCHEDULE = tuple([("ops", i) for i in range(len(PREDEF))] + [("ops", i) for i
                     [("car", i) for i in range(11)] + [("random", None)] * 14)
 
 EPS = 2.3e-16
-TOL_NET = 5e-13
+TOL_NET = 1e-13
 
 
 def plan(tier):
     if tier == "thorough":
-        return {"cases": 144000, "shards": 16, "budget_s": 1500}
+        return {"cases": 72000, "shards": 16, "budget_s": 800}
     return {"cases": 2430, "shards": 8, "budget_s": 240}
 
 
 def floors(tier):
-    k = 20 if tier == "thorough" else 1
+    k = 10 if tier == "thorough" else 1
     f = {"swap_cases": 300 * k, "swap_flag:True": 30 * k, "swap_flag:False": 30 * k, "swap_flag:tuple-all-true": 30 * k,
          "swap_flag:tuple-all-false": 30 * k, "swap_flag:tuple-mixed": 30 * k,
          "swap_sign_sensitive": 80 * k, "swap_odd_tensor": 60 * k, "swap_even_tensor": 60 * k,
@@ -491,8 +504,8 @@ def swap_case(ctx, idx, k):
     r2 = r.swap_gate(axes=axes, **kwargs)
     r2u = unfuse_all(r2) if fuse != "none" else r2
     ctx.count("swap_involution_checked")
-    if ok and not compare_exact(ctx, "involution:" + key, what + " applied twice", r2u, dense0, base.legs, base.n, witness):
-        pass
+    if ok:
+        compare_exact(ctx, "involution:" + key, what + " applied twice", r2u, dense0, base.legs, base.n, witness)
     if not fermionic:
         ctx.count("swap_bosonic_identity_checked")
         if sensitive:      # cannot happen: S is all ones when no component is fermionic
@@ -931,10 +944,12 @@ def ncon_case(ctx, idx, k):
             w = dict(base_w, order=order, via=via, order_class=oclass, error=repr(e)[:300])
             if unres:
                 key = "exception:ncon-swap:" + unres.replace("unresolvable:", "unresolvable-order:")
-            elif oclass == "inefficient":
-                key = f"exception:ncon-swap:inefficient-order:{type(e).__name__}"
+            elif oclass == "inefficient":       # an order the library rejects anyway, but not with the documented error
+                key = "exception:ncon-swap:inefficient-order"
+            elif "trace" in hard:               # stale swap left behind by the trace step: the exception type is incidental
+                key = "exception:ncon-swap:resolvable-order:pending-swap-at-trace"
             else:
-                key = "exception:ncon-swap:resolvable-order:" + ("pending-swap-at-trace:" if "trace" in hard else "") + type(e).__name__
+                key = "exception:ncon-swap:resolvable-order:" + type(e).__name__
             ctx.count("ncon_orders_raised:" + oclass)
             ctx.violation(key, f"{via}(inds={net.inds}, order={order}, swap={net.swap}) raised {type(e).__name__}: {e} "
                                f"[order class by GF(2) analysis: {oclass}]", w)
@@ -1079,7 +1094,7 @@ def enumerate_fkron(ctx, key, tag, ylist, locs, op_legs, op_spaces, sym, ferm, n
     import yastn
     m = len(ylist)
     nexp = G.add(sym, [n for _, n in locs])
-    tol = 16 * EPS * float(np.prod([max(1.0, float(np.max(np.abs(mat))) if mat.size else 1.0) for mat, _ in locs]))
+    tol = 64 * EPS * float(np.prod([max(1.0, float(np.max(np.abs(mat))) if mat.size else 1.0) for mat, _ in locs]))
     values = set()
     sens = 0
     for sites in itertools.permutations(range(m)):
@@ -1102,7 +1117,7 @@ def enumerate_fkron(ctx, key, tag, ylist, locs, op_legs, op_spaces, sym, ferm, n
             fkron_compare(ctx, key, what, res, exp, legs, nexp, sym, tol, dict(witness, sites=sites, application_order=ao))
             if np.max(np.abs(exp - bos_model.product(factors))) > tol:
                 sens += 1
-            values.add(np.round(exp, 9).tobytes())
+            values.add((np.round(exp, 9) + 0.0).tobytes())
     ctx.count("fkron_sign_sensitive", sens)
     return sens, len(values)
 
